@@ -567,7 +567,7 @@ pub fn for_each_entry(v: &mut impl Visitor) {
     v.visit(Entry {
         name: "command.raw",
         wide: true,
-        pool: command_pool(&rp, true),
+        pool: command_pool(&rp),
         bad: vec![],
         encode: cm_raw_enc(),
         reencode: cm_raw_enc(),
@@ -579,7 +579,7 @@ pub fn for_each_entry(v: &mut impl Visitor) {
     v.visit(Entry {
         name: "command.typed",
         wide: true,
-        pool: command_pool(&tp, true),
+        pool: command_pool(&tp),
         bad: vec![],
         encode: cm_typed_enc(),
         reencode: cm_typed_enc(),
@@ -591,7 +591,7 @@ pub fn for_each_entry(v: &mut impl Visitor) {
     v.visit(Entry {
         name: "command.raw->typed",
         wide: true,
-        pool: command_pool(&tp, false),
+        pool: command_pool(&tp),
         bad: bad_command_pool(),
         encode: cm_raw_enc(),
         reencode: cm_raw_enc(),
@@ -603,7 +603,7 @@ pub fn for_each_entry(v: &mut impl Visitor) {
     v.visit(Entry {
         name: "command.typed->raw",
         wide: true,
-        pool: command_pool(&tp, false),
+        pool: command_pool(&tp),
         bad: vec![],
         encode: cm_typed_enc(),
         reencode: cm_raw_enc(),
@@ -618,7 +618,7 @@ pub fn for_each_entry(v: &mut impl Visitor) {
     v.visit(Entry {
         name: "routed.request.raw",
         wide: true,
-        pool: request_pool(&rp, true),
+        pool: request_pool(&rp),
         bad: vec![],
         encode: rq_enc(),
         reencode: rq_enc(),
@@ -630,7 +630,7 @@ pub fn for_each_entry(v: &mut impl Visitor) {
     v.visit(Entry {
         name: "routed.request.raw->typed",
         wide: true,
-        pool: request_pool(&tp, true),
+        pool: request_pool(&tp),
         bad: bad_request_pool(),
         encode: rq_enc(),
         reencode: rq_enc(),
@@ -645,7 +645,7 @@ pub fn for_each_entry(v: &mut impl Visitor) {
     v.visit(Entry {
         name: "routed.response.raw",
         wide: true,
-        pool: response_pool(&rp, &rp, true),
+        pool: response_pool(&rp, &rp),
         bad: vec![],
         encode: rs_raw_enc(),
         reencode: rs_raw_enc(),
@@ -657,7 +657,7 @@ pub fn for_each_entry(v: &mut impl Visitor) {
     v.visit(Entry {
         name: "routed.response.typed->raw",
         wide: true,
-        pool: response_pool(&tp, &rp[1..], false),
+        pool: response_pool(&tp, &rp),
         bad: vec![],
         encode: enc(|| ResponseMessageEncoder, |m: &RS| rs_map(m, s_clone, pv, |u: &P| u.clone())),
         reencode: rs_raw_enc(),
